@@ -1,6 +1,6 @@
 //! C10 — tokens tile the input and carry the exact source text; documented classification.
 use crate::bigdec::BigDec;
-use crate::gen_soup::{gen_soup, CLASSES, MULTIBYTE, OTHER_FIRST, WS};
+use crate::gen_soup::{gen_soup, CLASSES, MULTIBYTE, NAME_START, OTHER_FIRST, WS};
 use crate::runner::*;
 use crate::src::Src;
 use crate::syntax::{is_ws, lex, OpTable, Tok, TK};
@@ -149,8 +149,9 @@ pub fn check_stream(input: &str, toks: &[HTok], err: &Option<String>, tab: &OpTa
             (Some(r), None) => {
                 if err.is_some() {
                     // the engine stopped with an error where the rules see a token
-                    if r.kind == TK::Num {
-                        return Ok(()); // number validity beyond the documented shape (e.g. rounding overflow)
+                    // a well-shaped literal may only be refused when it does not fit the 96-bit / 28-place range
+                    if r.kind == TK::Num && BigDec::from_literal(r.text.trim_end_matches('.')).map(|d| !d.fits()).unwrap_or(true) {
+                        return Ok(());
                     }
                     return Err(fail(
                         &format!("class:{}:error", r.kind.name()),
@@ -182,7 +183,7 @@ pub fn check_stream(input: &str, toks: &[HTok], err: &Option<String>, tab: &OpTa
 fn gen_name(src: &mut Src) -> String {
     let first: String = match src.pick(4) {
         0 => src.choose(&OTHER_FIRST).to_string(),
-        1 => src.choose(&MULTIBYTE[..7]).to_string(),
+        1 => src.choose(&MULTIBYTE[..NAME_START]).to_string(),
         _ => src.choose(&["a", "b", "x", "Z", "f", "_", "q", "t", "i", "n"]).to_string(),
     };
     let n = src.pick(5);
